@@ -58,6 +58,7 @@ struct ShutRun {
 fn run_with_shutdown(c: &ConnCase, b: &Built, shutdown_at: usize) -> Result<ShutRun, Fail> {
     let cfg = syncdrv::config((c.buf as usize).max(b.need), c.max_conns as usize);
     let world: Shared = Arc::new(Mutex::new(World::new(b.client.clone(), b.releases.clone(), c.read_script.clone(), c.write_script.clone(), c.vectored, IoFault::None)));
+    world.lock().unwrap().flush_script = c.flush_script.clone();
     let step = Arc::new(AtomicUsize::new(0));
     let sh = Arc::new(HShared {
         scripts: c.reqs.iter().zip(&b.kinds).filter(|(_, k)| **k != conn::Kind::ParamsAbort).map(|(r, _)| r.handler.clone()).collect(),
@@ -202,6 +203,7 @@ fn test_conn(c: &ConnCase) -> TestResult {
     let r0 = conn::run_conn(c, &b, IoFault::None, |_, _| None)?;
     conn::check_clean_run(c, &b, &m, &r0)?;
     let total = r0.steps;
+    if std::env::var_os("VERIF_DEBUG").is_some() && c.reqs.len() >= 9 { eprintln!("long pipeline: {} reqs, {} invocations, {} steps, kinds {:?}", c.reqs.len(), r0.invocations.len(), total, b.kinds); }
     let pts: Vec<usize> = if total <= 600 { (0..=total + 1).collect() } else { (0..300).chain((300..total).step_by(total / 300)).chain(total - 5..=total + 1).collect() };
     let mut runs = 0u64;
     let mut saw_in_flight = false;
@@ -215,7 +217,8 @@ fn test_conn(c: &ConnCase) -> TestResult {
     let mut o = Outcome::new(saw_in_flight && saw_idle && total >= 4)
         .label_if(saw_in_flight, "shutdown-while-request-in-flight")
         .label_if(saw_idle, "shutdown-while-waiting-for-a-request")
-        .label_if(r0.invocations.len() >= 2, "multi-request-script");
+        .label_if(r0.invocations.len() >= 2, "multi-request-script")
+        .label_if(r0.invocations.len() >= 9, ">=9-requests-served");
     o.extra_evals = runs;
     Ok(o)
 }
@@ -551,6 +554,20 @@ fn pipelined_strategy() -> BoxedStrategy<ConnCase> {
         .prop_map(|mut c| {
             c.pipelined = true;
             c.tail.clear();
+            // one case in five: a long pipeline (9..13 copies of a small first request, all
+            // delivered by the same few reads), so that many requests are served back to back
+            // from the buffer
+            if c.max_conns % 3 == 0 {
+                let mut one = c.clone();
+                one.reqs.truncate(1);
+                if std::env::var_os("VERIF_DEBUG").is_some() { eprintln!("long-pipeline candidate: single client len {}", conn::build(&one).client.len()); }
+                if conn::build(&one).client.len() <= 1500 {
+                    let copies = 9 + (c.reqs[0].pre.id % 5) as usize;
+                    let q0 = c.reqs[0].clone();
+                    c.reqs = std::iter::repeat(q0).take(copies).collect();
+                    c.buf = c.buf.max(8192);
+                }
+            }
             let n = c.reqs.len();
             for (i, q) in c.reqs.iter_mut().enumerate() {
                 let cap = 1 + (q.pre.id % 97);
